@@ -41,7 +41,8 @@ def bounds(tier):
 
 
 def shards(tier):
-    out = [("crc", 0), ("getprops", 0), ("getprops", 1), ("setprops", 0), ("setprops", 1), ("setstate", 0), ("misc", 0)]
+    out = [("crc", 0), ("getprops", 0), ("getprops", 1), ("setprops", 0), ("setprops", 1), ("setstate", 0), ("misc", 0), ("reuse", 0),
+           ("concurrent", 0)]
     n = hist_len(tier)
     for i, start in enumerate([0, 250, 65530, 2 ** 31 - 3, 2 ** 64 - 2]):
         out.append(("history", i, start, n if i == 0 else min(n, 1500)))
@@ -133,6 +134,41 @@ def run_direct(st: Stats, kind, part):
                         st.violation("SetProperties: ids differ", case, [int(p) for p in props], dev.prop_sets[-1])
                     st.ev(("sp", sub, variant), "ok" if not prob else "bad", k > 0,
                           sample=None if k != 2 or len(st.samples) > 0 else case)
+    elif kind == "reuse":
+        # the same command object serialised again after the caller's container changed: still a well-formed frame
+        for k in range(0, len(ALL_PROPS)):
+            lst = list(ALL_PROPS[:k])
+            c = cmd.GetPropertiesCommand(lst)
+            for grow in range(0, 4):
+                case = {"cmd": "GetProperties(reused object)", "initial": k, "now": len(lst)}
+                prob = accept(st, dev, c.tobytes, case, 0xB1, 0x03)
+                if not prob and sorted(dev.prop_gets[-1]) != sorted(int(p) for p in lst):
+                    st.violation("GetProperties(reused object): requested ids differ", case, [int(p) for p in lst], dev.prop_gets[-1])
+                st.ev(("reuse-get", k, grow), "ok" if not prob else "bad", True)
+                if len(lst) < len(ALL_PROPS):
+                    lst.append(ALL_PROPS[len(lst)])
+        for k in range(0, len(SUPPORTED)):
+            d = {p: PVALUES[p][0] for p in SUPPORTED[:k]}
+            c = cmd.SetPropertiesCommand(d)
+            for grow in range(0, 4):
+                case = {"cmd": "SetProperties(reused object)", "initial": k, "now": len(d)}
+                prob = accept(st, dev, c.tobytes, case, 0xB0, 0x02)
+                st.ev(("reuse-set", k, grow), "ok" if not prob else "bad", True)
+                if len(d) < len(SUPPORTED):
+                    d[SUPPORTED[len(d)]] = PVALUES[SUPPORTED[len(d)]][-1]
+        for mk in (cmd.GetStateCommand, cmd.GetEnergyUsageCommand, cmd.ToggleDisplayCommand, cmd.SetStateCommand):
+            c = mk()
+            ids = []
+            for rep in range(3):
+                case = {"cmd": f"{mk.__name__}(reused object)", "rep": rep}
+                prob = accept(st, dev, c.tobytes, case, 0x40 if mk is cmd.SetStateCommand else 0x41, 0x02 if mk is cmd.SetStateCommand else 0x03)
+                ids.append(dev.msg_ids[-1] if not prob else None)
+                st.ev(("reuse-fixed", mk.__name__, rep), "ok" if not prob else "bad", True)
+            # serialising one object again is either a new command (+1) or a repeat of the same one (same id): both are fine
+            if None not in ids and any((b - a) % 256 not in (0, 1) for a, b in zip(ids, ids[1:])):
+                st.violation(f"{mk.__name__}(reused object): message id jumps", {"cmd": mk.__name__}, "+1 or repeat", ids)
+    elif kind == "concurrent":
+        run_concurrent(st)
     elif kind == "setstate":
         from .c10 import gen_cases
         for s in gen_cases():
@@ -166,6 +202,46 @@ def run_direct(st: Stats, kind, part):
                     prob = "not understood as a display toggle with the requested beep"
                     st.violation("ToggleDisplay: " + prob, {"cmd": "ToggleDisplay", "beep": beep}, "toggle", "no toggle")
                 st.ev(("misc", "toggle", beep, rep), "ok" if not prob else "bad", True)
+
+
+def run_concurrent(st: Stats):
+    """Two (and three) devices refreshed concurrently: ids advance by one in the order the commands are put on the wire."""
+    import asyncio
+    from ..simdev import SimDevice
+    from ..harness import World
+    for ndev in (2, 3):
+        for start in (0, 250):
+            w = World(message_id=start)
+            devs, acs = [], []
+            for k in range(ndev):
+                model = RefAC(cap_pages=caps_full())
+                d = SimDevice(version=2, device_id=100 + k, ac=model)
+                w.net.listen(f"10.9.0.{k + 1}", 6444, d)
+                devs.append(d)
+                a = AC(ip=f"10.9.0.{k + 1}", port=6444, device_id=100 + k)
+                a.enable_energy_usage_requests = True
+                acs.append(a)
+
+            async def drive():
+                await asyncio.gather(*(a.get_capabilities() for a in acs))
+                for _ in range(3):
+                    await asyncio.gather(*(a.refresh() for a in acs))
+                    await asyncio.gather(*(a.apply() for a in acs))
+
+            try:
+                out = w.run(drive())
+                case = {"cmd": "concurrent", "devices": ndev, "start": start}
+                if out[0] != "ok":
+                    st.violation(f"concurrent: driver ended with {type(out[1]).__name__}", case, "completes", str(out[1])[:100])
+                wire = [rc.v2_parse(e[3]).frame for e in w.net.log if e[1] == "tx"]
+                ids = [rc.frame_parse(f).msg_id for f in wire]
+                bad = [(a, b) for a, b in zip(ids, ids[1:]) if (b - a) % 256 != 1]
+                if bad:
+                    st.violation("concurrent: message id does not advance by one in emission order", case, "+1 mod 256", {"ids": ids[:24]})
+                st.transitions += len(ids)
+                st.ev(("concurrent", ndev, start), "ok" if not bad else "bad", True, sample={**case, "ids": ids[:12]})
+            finally:
+                w.close()
 
 
 def caps_full():
